@@ -8,6 +8,7 @@
 import Ladybug.Proofs.C19Lemmas
 import Ladybug.Proofs.C19Struct
 import Ladybug.Proofs.C19Time
+import Ladybug.Proofs.C19Obj
 
 namespace Sql
 
@@ -324,19 +325,42 @@ example :
      | .ok (.annual vs) => vs
      | _ => []) = [5, 6, 7, 8] := by decide +kernel
 
-/-! ### Recorded defect of the code (known_findings.d/C19.json), as a fact about the faithful model -/
+/-! ### Mixed time tables (repaired by fixes/C19_all_run_periods_own_interval_type.patch, /repo c9ccd82) -/
 
-/-- Daily and monthly reporting over two run periods (1–2 Jan, 1 Jul): `_extract_all_run_period` reads
-    the end of each period from the monthly rows (31 Jan, 31 Jul), the chunk sizes become 31 + 31 for
-    3 rows, and the query fails (`range() arg 3 must not be zero`) instead of returning two collections. -/
-theorem C19_mixed_time_table_counterexample :
+/-- Sample (kernel-evaluated test; before the repair this database made the query fail with
+    `range() arg 3 must not be zero`): daily and monthly reporting over two run periods (1–2 Jan, 1 Jul).
+    The run periods are read from the daily rows only, so the daily output comes back as two
+    collections 1–2 Jan and 1 Jul with their own rows.  The general statement is `C19_end_to_end`, whose
+    time-table hypothesis speaks about the rows of the data's own interval type only. -/
+example :
     let db : DB Nat := ⟨[⟨1, "Zone", "Z1", "E", "Daily", "C"⟩],
       [⟨1, 2017, 1, 1, 1440, 2, 1⟩, ⟨2, 2017, 1, 2, 1440, 2, 1⟩, ⟨3, 2017, 1, 31, 44640, 3, 1⟩,
        ⟨4, 2017, 7, 1, 1440, 2, 2⟩, ⟨5, 2017, 7, 31, 44640, 3, 2⟩],
       [⟨1, 1, 5⟩, ⟨2, 1, 6⟩, ⟨4, 1, 7⟩]⟩
     (match queryAll (· / 3600000) db (.single "E") with
-     | .error e => some e
-     | .ok _ => none) = some .value := by decide +kernel
+     | .ok (.colls cs) => cs.map fun c => ([c.period.stMonth, c.period.stDay, c.period.endMonth, c.period.endDay],
+         c.values, c.datetimes)
+     | _ => []) = [([1, 1, 1, 2], [5, 6], [1, 2]), ([7, 1, 7, 1], [7], [182])] := by decide +kernel
+
+/-- The rows `_extract_all_run_period` scans are those of the data's own interval type: a monthly row
+    (type 3) is never used for daily (type 2) or (sub-)hourly (types ≤ 1) data, and vice versa. -/
+theorem C19_own_interval_type (freq : Freq) (r : TimeRow) (hf : freq ≠ .annual) :
+    ownIntervalType freq r = true ↔
+      ((∃ n, freq = .steps n) ∧ r.itype ≤ 1) ∨ (freq = .daily ∧ r.itype = 2) ∨ (freq = .monthly ∧ r.itype = 3) := by
+  cases freq with
+  | steps n => simp [ownIntervalType]
+  | daily => simp [ownIntervalType]
+  | monthly => simp [ownIntervalType]
+  | annual => exact absurd rfl hf
+
+/-- A `Time` table that is, environment after environment, the rows of *all* reporting frequencies
+    (`tbAll`): the rows `_extract_all_run_period` scans are, environment after environment, the rows of the
+    data's own interval type.  (This is how the time-table hypothesis `htime` of `C19_end_to_end` is met by
+    a mixed-frequency file: `tb := tbAll.map (·.filter (ownIntervalType freq))`.) -/
+theorem C19_mixed_table_blocks (time : List TimeRow) (tbAll : List (List TimeRow)) (freq : Freq)
+    (h : time = tbAll.flatten) :
+    time.filter (ownIntervalType freq) = (tbAll.map (·.filter (ownIntervalType freq))).flatten := by
+  rw [h, List.filter_flatten]
 
 /-! ### End to end: a structured EnergyPlus database through the whole query
 
@@ -364,7 +388,9 @@ theorem C19_select_structured (db : DB α) (q : NameQuery) (blocks : List (List 
   exact sortByTime_sorted _ (epRows_sorted _ _ _ h.sorted)
 
 /-- **Several run periods.**  For a structured database with `n` keys and `m` run periods (time indices
-    `blocks[j]`), whose `Time` table is the concatenation `tb` of the environments' rows, `queryAll`
+    `blocks[j]`), whose `Time` rows *of the data's own interval type* (`ownIntervalType`: the table may
+    mix timestep, hourly, daily, monthly and run-period rows) are the concatenation `tb` of the
+    environments' rows, `queryAll`
     returns exactly, period after period and key after key (dictionary order), the collection that holds
     that key's values of that period in time order – converted iff the key's own unit is `J`/`kWh` –
     labelled with the key, with the key's own data type and unit, under the analysis period `ps[j]` of the
@@ -379,7 +405,8 @@ theorem C19_end_to_end (conv : α → α) (db : DB α) (q : NameQuery) (blocks :
     (hD : EPlusData db q blocks v)
     (h0 : blocks.flatten.head? = some t0) (h1 : blocks.flatten.getLast? = some t1)
     (hrp : extractRunPeriod db.time t0 t1 = .ok (some p0, freq, true)) (hfr : freq ≠ .annual)
-    (htime : db.time = tb.flatten) (htb : blockedFrom none tb) (htbne : tb ≠ []) (hts : p0.timestep ≠ 0)
+    (htime : db.time.filter (ownIntervalType freq) = tb.flatten) (htb : blockedFrom none tb) (htbne : tb ≠ [])
+    (hts : p0.timestep ≠ 0)
     (hps : blockPeriods (freq == .monthly) p0.timestep p0.leap tb = .ok ps)
     (hlen : ps.length = blocks.length)
     (hok : ∀ pb ∈ ps.zip blocks, okPeriod freq pb.1 pb.2.length) :
@@ -651,6 +678,155 @@ example : (match queryAll (· / 2) exDB (.single "E") with
     | _ => []) =
     [("Z1", "kWh", 1, [53, 103], [1, 2]), ("Z2", "C", 1, [109, 209], [1, 2]),
      ("Z1", "kWh", 7, [153], [182]), ("Z2", "C", 7, [309], [182])] := by decide +kernel
+
+
+/-! ### Request histories on one `SQLiteResult` (object state machine of Model/SqlObj.lean)
+
+  The object has no setters; its state are the lazily filled slots behind `available_outputs`,
+  `available_outputs_info`, `reporting_frequency`, `run_period_indices`.  The public state a user
+  establishes is the file alone, so the specification is: no history of requests – successful or
+  refused – is visible in any later answer. -/
+
+/-- **Histories refine fresh objects.**  After any history of requests on one object (queries of all
+    three kinds, property reads, refused requests, in any order and repetition), every request is
+    answered exactly as by a fresh `SQLiteResult` of the same file. -/
+theorem C19_history_refines_fresh (conv : α → α) (db : DB α) (ops : List Op) (op : Op) :
+    (step conv (after conv (Obj.fresh db) ops) op).2 = (step conv (Obj.fresh db) op).2 := by
+  obtain ⟨hi, hdb⟩ := after_inv conv (Obj.fresh db) ops (inv_fresh db)
+  rw [step_obs conv _ op hi, hdb]
+  rfl
+
+/-- The same for all the observations made *during* a history: the `i`-th answer is the answer of a
+    fresh object to the `i`-th request. -/
+theorem C19_history_observations (conv : α → α) (db : DB α) (ops : List Op) :
+    (run conv (Obj.fresh db) ops).2 = ops.map fun op => (step conv (Obj.fresh db) op).2 :=
+  run_obs conv (Obj.fresh db) ops (inv_fresh db)
+
+/-- Any request – whatever it returns – leaves every later observation as it was. -/
+theorem C19_request_preserves_observations (conv : α → α) (db : DB α) (ops : List Op) (req op : Op) :
+    (step conv (step conv (after conv (Obj.fresh db) ops) req).1 op).2 =
+      (step conv (after conv (Obj.fresh db) ops) op).2 := by
+  obtain ⟨hi, hdb⟩ := after_inv conv (Obj.fresh db) ops (inv_fresh db)
+  rw [step_obs conv _ op (step_inv conv _ req hi), step_db, step_obs conv _ op hi]
+
+/-- **Refused requests preserve.**  A request that raises (absent run period, malformed argument,
+    broken statement, failing timestep lookup …) leaves every observation unchanged; a refused query or
+    malformed request leaves the object itself untouched. -/
+theorem C19_refused_preserves (conv : α → α) (db : DB α) (ops : List Op) (req : Op) (e : Err)
+    (_hr : (step conv (after conv (Obj.fresh db) ops) req).2 = .error e) :
+    (∀ op, (step conv (step conv (after conv (Obj.fresh db) ops) req).1 op).2 =
+      (step conv (after conv (Obj.fresh db) ops) op).2) ∧
+    (∀ (o : Obj α) q name env, (step conv o (.queryAll q)).1 = o ∧ (step conv o (.queryRunPeriod name env)).1 = o ∧
+      (step conv o (.values q)).1 = o ∧ (step conv o .malformed).1 = o) :=
+  ⟨fun op => C19_request_preserves_observations conv db ops req op, fun _ _ _ _ => ⟨rfl, rfl, rfl, rfl⟩⟩
+
+/-- **Reads are pure.**  Asking the same thing twice in a row gives the same answer, and two requests
+    asked in either order give the same two answers. -/
+theorem C19_read_pure (conv : α → α) (db : DB α) (ops : List Op) (a b : Op) :
+    (step conv (step conv (after conv (Obj.fresh db) ops) a).1 a).2 =
+        (step conv (after conv (Obj.fresh db) ops) a).2 ∧
+    (step conv (step conv (after conv (Obj.fresh db) ops) a).1 b).2 =
+        (step conv (after conv (Obj.fresh db) ops) b).2 ∧
+    (step conv (step conv (after conv (Obj.fresh db) ops) b).1 a).2 =
+        (step conv (after conv (Obj.fresh db) ops) a).2 :=
+  ⟨C19_request_preserves_observations conv db ops a a, C19_request_preserves_observations conv db ops a b,
+   C19_request_preserves_observations conv db ops b a⟩
+
+/-- Non-vacuity (kernel-evaluated): on the example database a history of property reads, a query and
+    refused requests leaves the slots filled (with what a fresh object computes), and a later query and a
+    later read answer as the fresh object does. -/
+example : (after (· / 2) (Obj.fresh exDB) [.availableOutputs, .malformed, .runPeriodIndices]).ao =
+      some ["E", "E", "X"] ∧
+    (after (· / 2) (Obj.fresh exDB) [.availableOutputs, .malformed, .runPeriodIndices]).ri = some [1, 2] := by
+  decide +kernel
+
+example : (match (step (· / 2) (after (· / 2) (Obj.fresh exDB)
+      [.runPeriodIndices, .queryRunPeriod "E" 9, .availableOutputsInfo]) (.queryRunPeriod "E" 2)).2 with
+    | .result (.colls cs) => cs.map fun c => (c.key, c.values)
+    | _ => []) = [("Z1", [153]), ("Z2", [154])] := by decide +kernel
+
+/-- The refused request of the history above really is refused (run period 9 does not exist). -/
+example : (match (step (· / 2) (Obj.fresh exDB) (.queryRunPeriod "E" 9)).2 with
+    | .error e => some e
+    | _ => none) = some .index := by decide +kernel
+
+/-- Test (compiled evaluation, `String` functions do not reduce in the kernel): the frequency read after
+    a history that already read and converted it. -/
+def exFreq (ops : List Op) : Option RFreq :=
+  match (step (· / 2) (after (· / 2) (Obj.fresh exDB) ops) .reportingFrequency).2 with
+  | .freq f => f
+  | _ => none
+
+#guard exFreq [] = some (.label "Daily")
+#guard exFreq [.availableOutputs, .queryAll (.single "E"), .malformed, .reportingFrequency] = some (.label "Daily")
+
+/-! ### What the property reads return (`available_outputs`, `reporting_frequency`, `run_period_indices`)
+    and the flat value list -/
+
+/-- `values_by_output_name` on a structured database: all values of the output's keys, time index by
+    time index, inside one time index in dictionary order, unconverted. -/
+theorem C19_values_structured (db : DB α) (q : NameQuery) (blocks : List (List Nat)) (v : Nat → Nat → α)
+    (h : EPlusData db q blocks v) :
+    valuesByName db q =
+      (blocks.flatten.map fun t => ((headerRows db.dict q).map (·.idx)).map (v t)).flatten := by
+  unfold valuesByName
+  rw [C19_select_structured db q blocks v h, epRows_values]
+
+/-- `available_outputs` lists exactly the output names of the dictionary. -/
+theorem C19_available_outputs (dict : List DictRow) (n : String) :
+    n ∈ outputNames dict ↔ ∃ r ∈ dict, r.name = n := by
+  unfold outputNames
+  rw [List.mem_map]
+  constructor
+  · rintro ⟨t, ht, rfl⟩
+    obtain ⟨r, hr, rfl⟩ := (mem_outputTuples dict t).mp ht
+    exact ⟨r, hr, rfl⟩
+  · rintro ⟨r, hr, rfl⟩
+    exact ⟨_, (mem_outputTuples dict _).mpr ⟨r, hr, rfl⟩, rfl⟩
+
+/-- `available_outputs_info` lists exactly, for the dictionary rows, name, object type, and the unit and
+    data type the collections of that row get (`typeUnitOf`: `J` becomes `Energy`/`kWh`). -/
+theorem C19_available_outputs_info (dict : List DictRow) (i : OutInfo) :
+    i ∈ outputInfos dict ↔ ∃ r ∈ dict, i = ⟨r.name, r.group, (typeUnitOf r).2, (typeUnitOf r).1⟩ := by
+  unfold outputInfos
+  rw [List.mem_map]
+  constructor
+  · rintro ⟨t, ht, rfl⟩
+    obtain ⟨r, hr, rfl⟩ := (mem_outputTuples dict t).mp ht
+    exact ⟨r, hr, rfl⟩
+  · rintro ⟨r, hr, rfl⟩
+    exact ⟨_, (mem_outputTuples dict _).mpr ⟨r, hr, rfl⟩, rfl⟩
+
+/-- An output reported in `J` is announced as `Energy` in `kWh` – the unit its collections carry. -/
+theorem C19_available_outputs_info_energy (dict : List DictRow) (r : DictRow) (hr : r ∈ dict)
+    (hu : r.units = "J") : (⟨r.name, r.group, "kWh", .base "Energy"⟩ : OutInfo) ∈ outputInfos dict := by
+  rw [C19_available_outputs_info]
+  refine ⟨r, hr, ?_⟩
+  rw [(C19_flag_by_own_unit r).1 hu]
+
+/-- `run_period_indices`: exactly the environment indices of the `Time` table, each once, ascending. -/
+theorem C19_run_period_indices (time : List TimeRow) :
+    (∀ e, e ∈ runPeriodIndices time ↔ ∃ r ∈ time, r.env = e) ∧ (runPeriodIndices time).Pairwise (· < ·) :=
+  ⟨mem_runPeriodIndices time, runPeriodIndices_sorted time⟩
+
+/-- `reporting_frequency` of a file whose outputs all carry one frequency label `f`: that label, or –
+    when the label says `Timestep` – the steps per hour `60 / Interval` of the first `Time` row.  On any
+    object, after any history (`C19_history_refines_fresh`). -/
+theorem C19_reporting_frequency (conv : α → α) (db : DB α) (ops : List Op) (f : String) (hne : db.dict ≠ [])
+    (h : ∀ r ∈ db.dict, r.freq = f) :
+    (step conv (after conv (Obj.fresh db) ops) .reportingFrequency).2 =
+      if hasTimestep f then
+        match extractTimestep db.time with
+        | .ok n => .freq (some (.steps n))
+        | .error e => .error e
+      else .freq (some (.label f)) := by
+  rw [C19_history_refines_fresh, fresh_reportingFrequency]
+  simp only [freshFreq, lastLabel_uniform db.dict f hne h]
+  cases hasTimestep f with
+  | true => cases extractTimestep db.time <;> rfl
+  | false => rfl
+
+example : extractTimestep [⟨1, 2017, 1, 1, 10, -1, 1⟩, ⟨2, 2017, 1, 1, 60, 1, 1⟩] = .ok 6 := by decide
 
 
 end Sql
